@@ -69,6 +69,13 @@ CHECKS = {
                 note="Exact clauses for key colours, unavailable, active, active_external, red-on-disconnect; relational (learned per run) for channel colours and the "
                      "octave/semitone/mapping/channel keys; where several highlights apply to one LED any of them is accepted; panic/multinote key colours, unmapped keys and "
                      "the mapping named Control are not asserted."),
+    "C18": dict(level="fault_enumeration", ref="DESIGN.md §4 C18",
+                text="The real updateHIDIConfiguration on generated hidi-config trees on the simulated file system: fault-free run (user files byte-identical, every "
+                     "embedded factory file restored, blacklist created only if missing, whole template tree when the directory is absent), second run with zero mutating "
+                     "operations, then a crash before EVERY mutating file-system operation of the fault-free run (enumerated per tree) plus sampled torn writes, power "
+                     "loss, EIO/ENOSPC/EACCES, each followed by a clean run that must restore the factory files and leave user files untouched.",
+                note="Trusted: simfs models os.OpenFile/Mkdir/Stat/ReadFile/Write faithfully (flags, EEXIST/ENOENT/EISDIR); trees in which a factory path is occupied by an entry of "
+                     "the wrong type (file vs directory) are not generated."),
 }
 
 NA = {}
